@@ -501,6 +501,16 @@ def _omen_cursor(ctx, rule):
     return c10.r5_sibling_cursor_advance(ctx, rule)
 
 
+def _omen_domain(ctx, rule):
+    from . import c10
+    return c10.r9_level_cursor_domain(ctx, rule)
+
+
+def _omen_prune(ctx, rule):
+    from . import c10
+    return c10.r7_prune_discipline(ctx, rule)
+
+
 def _loader_bundle():
     from . import c07 as _c07
     return _c07.guesser_loads_faithfully('C04.L')
@@ -510,7 +520,8 @@ def rules(tier):
     return [('C04.R1', r1_dispatch), ('C04.R2', r2_structural_recursion), ('C04.R3', r3_mask_slices),
             ('C04.R4', r4_count_write_pairing), ('C04.R5', r5_grouping_kernel), ('C04.R7', r7_group_cardinality),
             ('C04.R8', _exact_float),
-            ('C04.R9', _mask_insertion), ('C04.R10', _omen_last), ('C04.R11', _omen_cursor), ('C04.R12', r12_output_point_total)] + _loader_bundle() + []
+            ('C04.R9', _mask_insertion), ('C04.R10', _omen_last), ('C04.R11', _omen_cursor), ('C04.R12', r12_output_point_total),
+            ('C04.R13', _omen_domain), ('C04.R14', _omen_prune)] + _loader_bundle() + []
 
 
 META = {
